@@ -32,6 +32,8 @@ class C20(Prop):
 
     def mc(self, tier):
         return [{"module": "Cli.tla", "cfg": "MC_Cli.cfg", "what": "all orders of <=4 option groups + content path; three routes"},
+                {"module": "Cli.tla", "cfg": "MC_Cli_deep.cfg", "tier": "thorough", "timeout": 3000,
+                 "what": "all orders of <=6 option groups: 1 268 211 (subset, order) pairs"},
                 {"module": "Cli.tla", "cfg": "MC_Cli_code.cfg", "expect": "fail",
                  "what": "config keys web-seed / out mapped to non-keywords (pinned commit)"}]
 
@@ -41,7 +43,7 @@ class C20(Prop):
         subsets += [set(FLAGS)]
         subsets += [{"A", "W"}, {"A", "H", "O"}, {"W", "H"}, {"A", "P", "L"}, {"V", "G", "A"}, {"O", "C", "S"},
                     {"A", "W", "H", "V"}, {"L", "V", "O"}]
-        n = 60 if tier == "thorough" else 14
+        n = 250 if tier == "thorough" else 14
         for _ in range(n):
             subsets.append({f for f in FLAGS if rng.random() < 0.45})
         out = []
